@@ -10,6 +10,7 @@ import sys
 import weakref
 
 from . import seams
+from . import env
 from .seams import point, SourceError
 
 import gffutils
@@ -33,7 +34,7 @@ class NodeState(object):
 def _path(st, name):
     if name == ":memory:":
         return name
-    return os.path.join(st.world, name)
+    return os.path.join(st.world, env.decorate(name))
 
 
 # ----------------------------------------------------------------------------- sources
@@ -217,8 +218,9 @@ def make_source(st, spec, led_name):
         name = spec.get("name", "in_%s_%d.gff" % (led_name, st.serial))
         st.serial += 1
         p = os.path.join(st.world, "in", name + (".gz" if form == "gz" and not name.endswith(".gz") else ""))
+        os.makedirs(os.path.dirname(p), exist_ok=True)
         if form == "gz":
-            data = spec["text"].encode("utf-8")
+            data = env.text(spec["text"]).encode(spec.get("encoding", "utf-8"))
             k = max(1, int(spec.get("members", 1)))
             lines_ = data.splitlines(True)
             step = max(1, (len(lines_) + k - 1) // k)
@@ -228,14 +230,14 @@ def make_source(st, spec, led_name):
                     with gzip.GzipFile(fileobj=raw, mode="wb", mtime=0) as fh:
                         fh.write(b"".join(lines_[a:a + step]))
         else:
-            with seams._real_open(p, "w", newline="") as fh:
-                fh.write(spec["text"])
+            with seams._real_open(p, "wb") as fh:
+                fh.write(env.text(spec["text"]).encode(spec.get("encoding", "utf-8")))
         if fail_at is not None:
             st.ctx.fail_lines[os.path.basename(p)] = fail_at
         return p, kw
     if form == "string":
         kw["from_string"] = True
-        return spec["text"], kw
+        return env.text(spec["text"]), kw
     feats = _features_from_lines(spec["lines"])
     if form == "list":
         return feats, kw
@@ -312,13 +314,52 @@ def _criteria(spec):
     return out
 
 
-def _create_kwargs(st, op, led_name):
-    kw = dict(op.get("kw") or {})
+def _create_kwargs(st, op, led_name, is_update=False):
+    kw = env.create_kw(dict(op.get("kw") or {}), None if (op.get("from_db") or op.get("no_env")) else op.get("data"), is_update)
     if "id_spec" in op:
         kw["id_spec"] = make_id_spec(op["id_spec"])
     if op.get("transform") is not None:
         kw["transform"] = make_transform(st, op["transform"], st.ledgers[led_name])
+    if op.get("explicit_dialect"):
+        # the caller states the dialect instead of letting the importer infer it: the one its first feature line shows
+        d = _first_line_dialect(op.get("data") or {})
+        if d is not None:
+            if op["explicit_dialect"] == "no_order":
+                d.pop("order", None)  # a hand-written dialect
+            kw["dialect"] = d
     return kw
+
+
+def _first_line_dialect(spec):
+    lines = spec["text"].split("\n") if "text" in spec else list(spec.get("lines") or [])
+    for ln in lines:
+        if not ln.strip() or ln.startswith("#"):
+            continue
+        cols = ln.split("\t")
+        if len(cols) >= 9:
+            from gffutils import helpers as ghelpers
+            return ghelpers.infer_dialect(cols[8])
+        return None
+    return None
+
+
+class _warnings_as_errors(object):
+    """`python -W error` / pytest filterwarnings=error for the duration of one call."""
+
+    def __init__(self, on):
+        self.on = on
+
+    def __enter__(self):
+        if self.on:
+            import warnings
+            self.cm = warnings.catch_warnings()
+            self.cm.__enter__()
+            warnings.simplefilter("error")
+
+    def __exit__(self, *a):
+        if self.on:
+            self.cm.__exit__(*a)
+        return False
 
 
 def op_create(st, op):
@@ -338,13 +379,14 @@ def op_create(st, op):
         data = giterators.DataIterator(data, **di_kw)
     if op.get("from_db"):
         data = st.h[op["from_db"]]
-    db = gffutils.create_db(data, _path(st, op["db"]), **kw)
+    with _warnings_as_errors(op.get("warn_error")):
+        db = gffutils.create_db(data, _path(st, op["db"]), **kw)
     st.h[op["h"]] = db
     return {"ledger": st.ledgers.get(led)}
 
 
 def op_open(st, op):
-    db = gffutils.FeatureDB(_path(st, op["db"]), **(op.get("kw") or {}))
+    db = gffutils.FeatureDB(_path(st, op["db"]), **env.open_kw(dict(op.get("kw") or {})))
     st.h[op["h"]] = db
     return {}
 
@@ -361,11 +403,12 @@ def op_update(st, op):
     db = st.h[op["h"]]
     led = op.get("src", "s%d" % st.serial)
     data, skw = make_source(st, op["data"], led)
-    kw = _create_kwargs(st, op, led)
+    kw = _create_kwargs(st, op, led, is_update=True)
     kw.update(skw)
     if op.get("from_db"):
         data = st.h[op["from_db"]]
-    r = db.update(data, **kw)
+    with _warnings_as_errors(op.get("warn_error")):
+        r = db.update(data, **kw)
     return {"same": r is db, "ledger": st.ledgers.get(led)}
 
 
@@ -741,6 +784,16 @@ def op_export(st, op):
     return {}
 
 
+def op_symlink(st, op):
+    """Harness op: make <link> a symbolic link to <target> (both inside the world; the target need not exist yet)."""
+    link, target = _path(st, op["link"]), _path(st, op["target"])
+    os.makedirs(os.path.dirname(target), exist_ok=True)
+    if os.path.lexists(link):
+        os.unlink(link)
+    os.symlink(target, link)
+    return {}
+
+
 def op_ls(st, op):
     d = os.path.join(st.world, op.get("dir", "tmp"))
     return {"files": sorted(os.listdir(d))}
@@ -769,9 +822,10 @@ OPS = {
     "dataiter_pair": op_dataiter_pair,
     "export": op_export,
     "ls": op_ls,
+    "symlink": op_symlink,
 }
 
-HARNESS_OPS = ("dump", "conn_state", "ls", "gc", "drop", "export")
+HARNESS_OPS = ("dump", "conn_state", "ls", "gc", "drop", "export", "symlink")
 
 
 def execute(st, op):
@@ -806,6 +860,9 @@ def execute(st, op):
     if op.get("want_log"):
         res["log"] = list(ctx.log)
     res["kinds"] = dict(ctx.kind_n)
+    if env.USED:
+        res["env_used"] = dict(env.USED)
+        env.USED.clear()
     if ctx.trace_sql:
         res["sql_trace"] = list(ctx.sql_trace)
     return res
